@@ -247,7 +247,7 @@ class Real:
             env["waits"] = waits
         elif kind == "close":
             env["finished"] = waits[-1] if waits else []
-        obs = {"out": out, "env": env, **self.snapshot()}
+        obs = {"out": out, "env": env, "before": before, **self.snapshot()}
         return obs
 
     def _new_rows(self):
@@ -589,7 +589,7 @@ def _stats(ck, case, trace):
     ck.count("backend:" + case["backend"])
     ck.count("format:" + ("hpo" if case["hpo"] else "regular"))
     ck.count(f"workers={case['workers']}")
-    for op, obs in zip(case["ops"], trace):
+    for idx, (op, obs) in enumerate(zip(case["ops"], trace)):
         k = op["op"] + ("-ALL" if op.get("all") else "")
         ck.count("op:" + k)
         o = obs["out"]
@@ -606,6 +606,15 @@ def _stats(ck, case, trace):
             if [j["id"] for j in o["jobs"]] != sorted(j["id"] for j in o["jobs"]):
                 ck.count("returned-out-of-submission-order")
         if op["op"] == "close":
+            # in which phase close() met the jobs (READY = task never ran or waits for a worker slot)
+            fin_set = set(obs["env"].get("finished", []))
+            nprev = sum(len(o["cfgs"]) for o in case["ops"][:idx] if o["op"] == "submit")
+            fresh = len(case["ops"][idx - 1]["cfgs"]) if idx and case["ops"][idx - 1]["op"] == "submit" else 0
+            for i, b in enumerate(obs.get("before", [])):
+                if b == "READY":
+                    ck.count(f"close-with-job-{'never-ran' if i >= nprev - fresh else 'waiting-for-worker'}:{case['backend']}")
+                elif b == "RUNNING":
+                    ck.count(f"close-with-job-{'finished-ungathered' if i in fin_set else 'running'}:{case['backend']}")
             fin = obs["env"].get("finished", [])
             new_c = sum(1 for j in obs["jobs_done"] if j["status"] == "CANCELLED")
             ck.count("close:" + ("finished+cancelled" if fin and new_c else "finished-only" if fin else "cancelled-only" if new_c else "idle"))
